@@ -131,18 +131,20 @@ func parseValue(d *jx.Decoder) (pcommon.Value, bool, error) {
 		if err != nil {
 			return val, false, err
 		}
+		// Number is a valid JSON, even if it does not fit into int64 or float64:
+		// keep the text of such number, do not fail the whole line.
 		if num.IsInt() {
-			n, err := num.Int64()
-			if err != nil {
-				return val, false, err
+			if n, err := num.Int64(); err == nil {
+				val = pcommon.NewValueInt(n)
+			} else {
+				val = pcommon.NewValueStr(num.String())
 			}
-			val = pcommon.NewValueInt(n)
 		} else {
-			n, err := num.Float64()
-			if err != nil {
-				return val, false, err
+			if n, err := num.Float64(); err == nil {
+				val = pcommon.NewValueDouble(n)
+			} else {
+				val = pcommon.NewValueStr(num.String())
 			}
-			val = pcommon.NewValueDouble(n)
 		}
 	case jx.Null:
 		err := d.Null()
